@@ -25,7 +25,7 @@ Op(o, x, y) == [op |-> o, x |-> x, y |-> y]
 AOps == {Op("gset", 3, 0), Op("gget", 0, 0), Op("st", 0, 11), Op("st", 8, 22), Op("ld", 7, 0), Op("ld", 16, 0), Op("msize", 0, 0),
          Op("mgrow", 1, 0), Op("tset", 0, 1), Op("tset", 5, 2), Op("tnull", 1, 0), Op("tisnull", 1, 0), Op("tcall", 0, 0),
          Op("tcall", 1, 0), Op("trcall", 1, 0), Op("trcall", 0, 0), Op("tset", 1, 3), Op("tset", 2, 3), Op("tcall", 2, 0), Op("tsize", 0, 0), Op("tgrow", 1, 0), Op("tgrow", 3, 0), Op("callinc", 0, 0)}
-BOps == AOps \cup {Op("kget", 0, 0), Op("gset", 5, 0), Op("tset", 1, 2), Op("tcall", 3, 0), Op("ld", 5, 0), Op("ld", 0, 0), Op("ld", 8, 0)}
+BOps == AOps \cup {Op("kget", 0, 0), Op("gset", 5, 0), Op("galias", 6, 0), Op("tset", 1, 2), Op("tcall", 3, 0), Op("ld", 5, 0), Op("ld", 0, 0), Op("ld", 8, 0)}
 (* focused family: two consumers from ONE compiled module, function references travelling through the shared table *)
 BaseOnly == {Base}
 FocusA == {Op("tcall", 1, 0), Op("trcall", 1, 0)}
